@@ -4090,6 +4090,10 @@ class Wallet(object):
                         if not value:
                             raise WalletError("Input value is zero for address %s. Import or update UTXO's first "
                                               "or import transaction as dictionary" % address)
+                        if not unlocking_script_type:
+                            # tuples and dictionaries do not say how the output is unlocked: as this wallet's own outputs are
+                            unlocking_script_type = 'p2sh_multisig' if self.multisig else \
+                                get_unlocking_script_type(self.script_type, witness_type, multisig=False)
 
                 amount_total_input += value
                 inp_keys, key = self._objects_by_key_id(key_id)
